@@ -5,7 +5,7 @@ behaviour) and what is declined (clauses that quantify over runtime values no st
 reach can bound)."""
 from .properties import prop
 
-prop('C01', ['K1', 'M1', 'M2', 'M3', 'M7', 'T4', 'DC1', 'DC4', 'M8', 'U1'],
+prop('C01', ['K1', 'M1', 'M2', 'M3', 'M7', 'T4', 'DC1', 'DC4', 'M8', 'U1', 'CL1'],
      'Round trip, structural part. Decided from the source: every PyTreeKind switch is exhaustive '
      '(K1); for each of the 9 container kinds the three node producers store the same metadata '
      'shape and take the arity from the container they enumerate (M1); MakeNode reads each shape '
@@ -58,7 +58,7 @@ prop('C04', ['T5', 'N1', 'N2', 'N3', 'N4', 'N5', 'N6', 'F8', 'M4', 'K4'],
      'node_entries (M4); the backwards walkers reverse their result (K4).',
      ['accessor(tree) is the leaf', 'prefix-freeness of paths', 'codify/eval agreement'])
 
-prop('C05', ['F1', 'F14', 'F2', 'F3', 'F4', 'F11', 'W2', 'K3', 'M7', 'P1', 'P4', 'M2', 'M3', 'W1', 'U1', 'L6', 'B1'],
+prop('C05', ['F1', 'F14', 'F2', 'F3', 'F4', 'F11', 'W2', 'K3', 'M7', 'P1', 'P4', 'M2', 'M3', 'W1', 'U1', 'L6', 'B1', 'CL1'],
      'tree_map family, structural part: options forwarded unchanged (F1); the six map functions, '
      'three transpose-map and three broadcast-map functions are one normal form modulo the '
      'declared variation points, with the extra iterable first (F2); every rest is matched by an '
@@ -82,7 +82,7 @@ prop('C06', ['H1', 'H4', 'H2', 'H6', 'H3', 'P5', 'H5', 'M1', 'M5', 'M6', 'S1', '
      'The routes by which a treespec is obtained (flatten, constructors, children, compose, transform, unpickling) write the same node shapes and counts, which is what == and hash read (M1, M5, M6, S1).',
      ['equality semantics across construction routes'])
 
-prop('C07', ['P1', 'P2cxx', 'P2py', 'P3', 'P4', 'W1', 'H3', 'F12', 'F13', 'K3', 'M7', 'P5', 'H5', 'K2', 'NS1', 'T4'],
+prop('C07', ['P1', 'P2cxx', 'P2py', 'P3', 'P4', 'W1', 'H3', 'F12', 'F13', 'K3', 'M7', 'P5', 'H5', 'K2', 'NS1', 'T4', 'CL1'],
      'Prefix matching: per kind, the attributes compared by IsPrefix, FlattenUpTo, the broadcast '
      'walker and prefix_errors equal the reference table of the property statement (P1); '
      'structural mismatch raises ValueError only, prefix_errors constructs only ValueError, sorts '
@@ -137,7 +137,7 @@ prop('C11', ['S1', 'S2', 'S3', 'K2', 'NS1'],
      'The loader looks custom types up in the recorded namespace (NS1).',
      ['cross-process behaviour', 'protocols', 'post-load equality'])
 
-prop('C12', ['G7', 'G1', 'G2', 'G3', 'G4', 'G8', 'G5', 'G6', 'L4', 'K6', 'K6py', 'NS1', 'D4', 'D5', 'I5', 'B1', 'G9', 'L6'],
+prop('C12', ['G7', 'G1', 'G2', 'G3', 'G4', 'G8', 'G5', 'G6', 'L4', 'K6', 'K6py', 'NS1', 'D4', 'D5', 'I5', 'B1', 'G9', 'L6', 'CL1'],
      'Registry: validation dominates mutation and nothing fallible follows the first mutation '
      '(G1); no C-API failure result is ignored (G2); the Python mirror is written only after the '
      'engine call, under the lock, with the same key, by exactly two functions (G3); a mutation '
@@ -206,14 +206,14 @@ prop('C18', ['T1', 'T1e', 'T2', 'T3', 'T3b', 'T4', 'T5', 'T6', 'T7', 'T8', 'K7py
      'lookup order (K6py) agree with the engine.',
      ['agreement over all inputs and cache histories'])
 
-prop('C19', ['DC1', 'DC2', 'DC3', 'DC4', 'DC5', 'G4', 'F8'],
+prop('C19', ['DC1', 'DC2', 'DC3', 'DC4', 'DC5', 'G4', 'F8', 'CL1'],
      'Dataclasses / partial: field partition by the pytree_node flag with one name tuple for '
      'children, entries and unflatten (DC1); keyword routing (DC2); rejections dominate (DC3, G4); '
      'partial flatten/unflatten are inverse, registered globally, nested partials shimmed (DC4); a '
-     'class is processed by dataclasses.dataclass exactly once (DC5); eq/hash agreement (F8).',
+     'class is processed by dataclasses.dataclass exactly once (DC5); eq/hash agreement (F8); the flatten / unflatten closures read no finished loop variable of the function that builds them (CL1).',
      ['all layouts and values', '__post_init__ behaviour'])
 
-prop('C20', ['R1', 'R2', 'R3', 'R4', 'F1', 'F14'],
+prop('C20', ['R1', 'R2', 'R3', 'R4', 'F1', 'F14', 'CL1'],
      'Ravel: each partial binds exactly the leading parameters of its target (R1); shape guard and '
      '(mixed-dtype) dtype guard dominate the split, chunks/shapes/dtypes are joined by the strict '
      'zip (R2); the three backends have the same structure (R3); the numpy common dtype is '
